@@ -125,3 +125,66 @@ func vp_C08_levels() {
 		checkUser(u)
 	}
 }
+
+// vp:check C08 both configs=version:10|11|12|org.matrix.hydra.11 K=12 timeout=900
+// vp_C08_integer_levels: from room version 10 on, a power-levels event is accepted only if every level in it is a
+// JSON integer. One level of an otherwise harmless change (Alice, level 100, lowers / sets something to 5) is given
+// as null, a string, a fraction, an exponent spelling, a boolean, an object - in each of the places a level can stand.
+func vp_C08_integer_levels() {
+	ver := RoomVersion(vpConfig("version"))
+	room, create := vpRoom, "$create:x"
+	createContent := vpJObj("creator", vpCarol, "room_version", string(ver))
+	if vpIsV12(ver) {
+		room, create = vpRoomIDFor(ver, vpCreateID12), vpCreateID12
+		createContent = vpJObj("room_version", string(ver))
+	}
+	auth, _ := NewAuthEvents(nil)
+	createRoom := room
+	if vpIsV12(ver) {
+		createRoom = ""
+	}
+	_ = auth.AddEvent(vpMkEvent(ver, create, createRoom, vpCarol, spec.MRoomCreate, vpStrPtr(""), createContent))
+	oldPL := vpJObj("users", vpJObj(vpAlice, int64(100), vpBob, int64(10)), "ban", int64(50), "events", vpJObj("m.room.name", int64(50)), "notifications", vpJObj("room", int64(50)))
+	_ = auth.AddEvent(vpMkEvent(ver, "$pl:x", room, vpCarol, spec.MRoomPowerLevels, vpStrPtr(""), oldPL))
+	_ = auth.AddEvent(vpMkEvent(ver, "$ma:x", room, vpAlice, spec.MRoomMember, vpStrPtr(vpAlice), vpJObj("membership", spec.Join)))
+
+	kind := vpChoice("kind", "integer", "null", "string", "fraction", "exponent", "boolean", "object")
+	var lvl interface{}
+	switch kind {
+	case "integer":
+		lvl = int64(5)
+	case "null":
+		lvl = nil
+	case "string":
+		lvl = "5"
+	case "fraction":
+		lvl = vpJNumLit("5.5")
+	case "exponent":
+		lvl = vpJNumLit("5e0")
+	case "boolean":
+		lvl = true
+	default:
+		lvl = vpJObj()
+	}
+	users, ban, events, notif := vpJObj(vpAlice, int64(100), vpBob, int64(10)), interface{}(int64(50)), vpJObj("m.room.name", int64(50)), vpJObj("room", int64(50))
+	var extra []interface{}
+	where := vpChoice("where", "ban", "users", "events", "notifications", "users_default", "state_default", "invite")
+	switch where {
+	case "ban":
+		ban = lvl
+	case "users":
+		users = vpJObj(vpAlice, int64(100), vpBob, lvl)
+	case "events":
+		events = vpJObj("m.room.name", lvl)
+	case "notifications":
+		notif = vpJObj("room", lvl)
+	default:
+		extra = []interface{}{where, lvl}
+	}
+	kv := append([]interface{}{"users", users, "ban", ban, "events", events, "notifications", notif}, extra...)
+	ev := vpMkEvent(ver, "$npl:x", room, vpAlice, spec.MRoomPowerLevels, vpStrPtr(""), vpJObj(kv...))
+	got := Allowed(ev, auth, vpUserIDForSender) == nil
+	vpAssert("accepted-iff-integer", got == (kind == "integer"))
+	vpReach("accepted", got)
+	vpReach("rejected", !got)
+}
